@@ -232,9 +232,9 @@ Proof.
   - (* clone *) destruct H as [Hl Hd]. destruct (Hreg _ _ Hin) as [Hl'|Hr]; [now left | right].
     eapply (Hput _ sid2); try reflexivity; [|exact Hr]. unfold fresh in H0. apply live_no_drop; [assumption|].
     destruct (lookup (streams s) sid2); [discriminate | reflexivity].
-  - (* async drop starts *) destruct H as [Hl Hd]. destruct (Hreg _ _ Hin) as [Hl'|Hr]; [now left | right].
-    destruct Hr as [(sid' & st' & Hd' & Hs' & Hr')|Hr]; [left | now right]. exists sid', st'. simp. repeat split; try assumption.
-    rewrite lookup_put_other; [assumption | intros ->; congruence].
+  - (* async drop starts: as drop, rule *) destruct H as [Hl Hd]. destruct (Hreg _ _ Hin) as [Hl'|Hr]; [now left | right].
+    destruct Hr as [Hr|Hr]; [|right; simp; apply in_app_r0; exact Hr]. left. destruct Hr as (sid' & st' & Hd' & Hs' & Hr').
+    exists sid', st'. simp. repeat split; try assumption. rewrite lookup_del_other; [assumption | intros ->; congruence].
   - destruct H as [Hl Hd]. destruct (Hreg _ _ Hin) as [Hl'|Hr]; [now left | right]. eapply (Hdel _ sid); try reflexivity; eassumption.
   - (* async drop, subs step, done *)
     rm_tables. rewrite Esnd in Hin. destruct (Hreg _ _ Hin) as [(e0 & He0 & Hc0)|Hr]; [left | exfalso; eapply not_busy_r1; eassumption].
@@ -355,9 +355,10 @@ Proof.
   - destruct H as [Hl Hd]. left. split; [intros; assumption|]. intros r' c'. eapply (Hdel _ sid); try reflexivity; eassumption.
   - (* clone *) destruct H as [Hl Hd]. left. split; [intros; assumption|]. intros r' c'. eapply (Hput _ sid2); try reflexivity.
     unfold fresh in H0. apply live_no_drop; [assumption|]. destruct (lookup (streams s) sid2); [discriminate | reflexivity].
-  - (* async drop starts *) destruct H as [Hl Hd]. left. split; [intros; assumption|]. intros r' c' [(sid' & st' & Hd' & Hs' & Hr')|Hr]; [left | now right].
-    simp. destruct (Nat.eq_dec sid' sid) as [->|Hne]; [rewrite lookup_put_same in Hd'; discriminate|].
-    rewrite lookup_put_other in Hd' by assumption. exists sid', st'. tauto.
+  - (* async drop starts: as drop rule *) destruct H as [Hl Hd]. left. split; [intros; assumption|]. intros r' c' [(sid' & st' & Hd' & Hs' & Hr')|Hr].
+    + left. simp. exists sid', st'. repeat split; try assumption. destruct (Nat.eq_dec sid' sid) as [->|Hne]; [now rewrite lookup_del_same in Hs'|].
+      now rewrite lookup_del_other in Hs'.
+    + right. simp. now apply in_app_r0 in Hr.
   - destruct H as [Hl Hd]. left. split; [intros; assumption|]. intros r' c'. eapply (Hdel _ sid); try reflexivity; eassumption.
   - (* async drop, subs, done *) rm_tables. left. split.
     + intros sid' r' c'. apply a2_ext. simp. assumption.
@@ -431,9 +432,8 @@ Proof.
   - (* clone *) apply fresh_spec in H0. destruct H0 as (Hn & _). apply Hput; [assumption | |].
     + intros -> st0 Hst. congruence.
     + intros _. now apply Hnone.
-  - (* async drop start *) destruct H as [Hl Hdn]. destruct (Nat.eq_dec sid0 sid) as [->|Hne].
-    + eauto.
-    + rewrite lookup_put_other in Hd by assumption. exact (Hold _ _ Hd).
+  - (* async drop start: as drop rule *) destruct H as [Hl Hdn]. destruct (Hold _ _ Hd) as (st0 & r0 & Hst & Hr). exists st0, r0. split; [|assumption].
+    rewrite lookup_del_other; [assumption | intros ->; congruence].
   - destruct H as [Hl Hdn]. destruct (Hold _ _ Hd) as (st0 & r0 & Hst & Hr). exists st0, r0. split; [|assumption].
     rewrite lookup_del_other; [assumption | intros ->; congruence].
   - (* async drop, subs, done *) rm_tables. rewrite Edrp in Hd. rewrite Estr. destruct (Nat.eq_dec sid0 sid) as [->|Hne]; [now rewrite lookup_del_same in Hd|].
@@ -464,6 +464,7 @@ Proof.
   - (* drop *) destruct (Nat.eq_dec sid0 sid) as [->|Hne]; [apply lookup_del_same | rewrite lookup_del_other by assumption; exact (Hold _ _ Ha)].
   - destruct (Nat.eq_dec sid0 sid) as [->|Hne]; [apply lookup_del_same | rewrite lookup_del_other by assumption; exact (Hold _ _ Ha)].
   - (* clone *) apply fresh_spec in H0. destruct H0 as (_ & Hn & _). rewrite lookup_put_other; [exact (Hold _ _ Ha) | intros ->; congruence].
+  - (* async drop starts *) destruct (Nat.eq_dec sid0 sid) as [->|Hne]; [apply lookup_del_same | rewrite lookup_del_other by assumption; exact (Hold _ _ Ha)].
   - destruct (Nat.eq_dec sid0 sid) as [->|Hne]; [apply lookup_del_same | rewrite lookup_del_other by assumption; exact (Hold _ _ Ha)].
   - rm_tables. rewrite Eadd in Ha. rewrite Estr. destruct (Nat.eq_dec sid0 sid) as [->|Hne]; [apply lookup_del_same | rewrite lookup_del_other by assumption; exact (Hold _ _ Ha)].
   - rm_tables. rewrite Eadd in Ha. rewrite Estr. exact (Hold _ _ Ha).
